@@ -35,6 +35,8 @@ TEMPLATES = [
     ('callml',    ['P({k},', '  1)']),
     ('valueml',   ['max(V({k}),', '    1)']),
     ('mstring',   ["s{k} = T({k}, '''", "    text{k}", "    ''')"]),
+    # a line of a string literal that ends in blanks (significant: they are part of the value)
+    ('mstrtrail', ["t{k} = T({k}, '''ab  ", "cd  ", "ef''')"]),
     ('for',       ['for i{k} in range(2):', '    P({k})']),
     ('while',     ['n{k} = 0', 'while n{k} < 1:', '    n{k} += 1; T({k})']),
     ('ifelse',    ['if T({k}) is None:', '    P({k})', 'else:', '    P(-{k})']),
